@@ -670,6 +670,14 @@ class AttackGraph():
             parent.children.remove(node)
         self.nodes.remove(node)
 
+        # Attackers must not keep referring to a node that is gone
+        for attacker in list(node.compromised_by):
+            attacker.undo_compromise(node)
+        for attacker in self.attackers:
+            attacker.entry_points = [entry_point
+                for entry_point in attacker.entry_points
+                if entry_point is not node]
+
         if not isinstance(node.id, int):
             raise ValueError(f'Invalid node id.')
         del self._id_to_node[node.id]
